@@ -17,14 +17,15 @@ from .c07 import ELT, install_elem_order
 
 MANIFEST_ENTRY = {
     'category': 'other',
-    'text': "symbolic-bounded relational check: each function that enumerates the host container of a set or map (collection enumeration for loops and comprehensions, spread in calls and list literals, destructuring, conversions between list/set/map/object, rendering, hashing, set arithmetic, membership, sum, ls, zip_map) is executed twice on the same abstract content of up to 3 elements (element values symbolic, ordered by an abstract injective rank) under two independent iteration orders of the host container, and the two outcomes must be equal; the seeded pseudo-random generator is proved to read and write only the module-level seed; plus the property's own experiment in small: generated programs run in fresh processes under 8 (thorough: 32) string-hash seeds must print identical text; stand-ins: consistency of the value order across kinds (asymmetric, total on unequal values, transitive) over a pool of values of every kind on the real classes, permutation invariance of sorted() on mixed lists, and the same program in fresh processes under different hash seeds",
-    'note': "container size <= 3 is a bound, not a proof; sorted() canonicalises only when __lt__ is a strict total order on the elements (C07: same-kind elements); CPython dicts preserve insertion order and a set's order is fixed during one iteration (assumed)",
+    'text': "symbolic-bounded relational check: each function that enumerates the host container of a set or map (collection enumeration for loops and comprehensions, spread in calls and list literals, destructuring, conversions between list/set/map/object, rendering, hashing, set arithmetic, membership, sum, ls, zip_map) is executed twice on the same abstract content of up to 3 elements (element values symbolic, ordered by an abstract injective rank) under two independent iteration orders of the host container, and the two outcomes must be equal; the seeded pseudo-random generator is proved to read and write only the module-level seed; plus the property's own experiment in small: generated programs run in fresh processes under 8 (thorough: 32) string-hash seeds must print identical text; stand-ins: consistency of the value order across kinds (asymmetric, total on unequal values, transitive) over a pool of values of every kind on the real classes, permutation invariance of sorted() on mixed lists, and the same program in fresh processes under different hash seeds; proved for all values: the value order that sorted() uses is a strict total order across all data kinds - mode lemmas on the real __lt__ of every ordered pair of kinds (by rendered text / numeric / date numeral), shape lemmas on the real __repr__ of every kind (first-character classes, sign link, distinguishing prefixes), and the order theorem over the two tables (irreflexive, asymmetric, transitive, total on values that differ) with texts abstracted to (first character, tail), justified by a lemma on z3 strings",
+    'note': "container size <= 3 is a bound, not a proof; sorted() canonicalises only when __lt__ is a strict total order on the elements (C07: same-kind elements); CPython dicts preserve insertion order and a set's order is fixed during one iteration (assumed); the order theorem excludes NaN, objects with a user-defined _str_, and streams/nodes as set elements; repr(float) and strftime shapes are assumed host contracts",
     'technique': 'contract-based relational check on the real AST with a permutation model of host containers (pyvc + z3, symbolic-bounded); bounded multi-process runs under different hash seeds',
 }
 PROPERTY = "C12"
 LEVEL = "other"
 TRUSTED = ["CPython dict preserves insertion order; the iteration order of a set is arbitrary but fixed during one iteration"]
 ASSUMPTIONS = ["containers of <= 3 elements in the relational check (symbolic-bounded, not counted as proved)",
+               "order theorem: NaN, objects with a user-defined _str_, streams and nodes are outside; first character of repr(float) and the strftime numeral are assumed host contracts",
                "elements are ordered by an injective rank (same-kind elements; C07 proves the order is strict and total per kind)"]
 EXPLANATION = ("symbolic-bounded relational check under the permutation model of host containers (<= 3 elements, all pairs of orders), "
                "seed frame of the random generator, and multi-process runs under different PYTHONHASHSEED values")
@@ -203,6 +204,10 @@ def units(w):
             U.append(rel_unit(f"functions.py::{cname}.execute", "set op set", lambda it, n=n, cname=cname: b_arith(it, cname, n),
                               lambda it, a, cname=cname: it.call(w.func(f"functions.py::{cname}.execute"), a), n))
 
+    # ------------------------------------------------------------------ the value order is a strict total order across kinds
+    from .c12_order import units as order_units
+    U.extend(order_units(w))
+
     # ------------------------------------------------------------------ seeded random generator: frame is the module-level seed
     def s_random(it):
         f = Obj(funcs["FuncRandom"], {"name": "random", "secure": True})
@@ -249,6 +254,7 @@ def l5 = []; for x in kinds do append(l5, string(x)) end; append(out, l5);
 def [k1, k2, k3, k4] = kinds; append(out, [k1, k2, k3, k4]);
 append(out, string(<<<NULL => 1, TRUE => 2, 'pear' => 3, 'apple' => 4, [1] => 5, 7 => 6, date('20200101') => 7>>>));
 append(out, sorted([NULL, TRUE, 'pear', [1, 2], 3, 'apple', FALSE, 2.5]));
+append(out, [f(1) for f in <<fn(x) x + 1, fn(x) x * 10, fn(x) x - 5, fn(x) 7>>]);
 do error s catch all append(out, 'caught') end;
 println(string(out));
 error <<'e2', 'e1'>>;
@@ -260,7 +266,7 @@ ORDER_POOL = ["NULL", "TRUE", "FALSE", "0", "3", "-5", "10", "100000000", "20200
               "date('20200101')", "date('19991231')", "date('20200102')",
               "[]", "[1]", "[2]", "[10]", "[1, 2]", "['a']", "[[1]]", "[NULL]", "[TRUE]", "[date('20200101')]", "[2.5]",
               "<<>>", "<<1>>", "<<2>>", "<<10>>", "<<1, 2>>", "<<'a'>>", "<<<>>>", "<<<1 => 2>>>", "<<<'a' => 1>>>", "<<<10 => 1>>>",
-              "//a//", "//[0-9]+//", "<*a=1*>", "<*b=2*>", "<**>", "fn(x) x", "length", "sum"]
+              "//a//", "//[0-9]+//", "<*a=1*>", "<*b=2*>", "<**>", "fn(x) x", "fn(y) y + 1", "length", "sum"]
 
 
 def order_consistency():
